@@ -32,9 +32,8 @@ const sentinelName = event.Name("c20-sentinel")
 // inconclusive (never a violation by itself)
 const syncDeadline = 60 * time.Second
 
-// how long the answer to the synthetic event may lag behind the result for the sentinel write
-// before the latter alone ends the interval
-const sentinelGrace = 400 * time.Millisecond
+// how long a subscription that owes no result at all is given to answer the synthetic event
+const noMarkerWait = 250 * time.Millisecond
 
 type stats struct {
 	labels map[string]bool
@@ -1302,15 +1301,16 @@ func (it gqlItem) mentions(cid string) bool {
 //
 // Two independent markers end the interval in the result stream: the answer to the synthetic
 // event (an error result naming its cid) and the result for the last real write of the interval,
-// the update of a sentinel document (lastDoc) that satisfies this subscription's filter. Normally
-// the first follows the second immediately. If the real result is there but the synthetic event
-// stays unanswered for a grace period, the stream is cut after the real result (which is the same
-// position); whatever arrives later is judged in the next interval. A grace period that is too
-// short therefore changes nothing on a healthy tree.
+// the update of a sentinel document (lastDoc) that satisfies this subscription's filter. No
+// result is owed between the two, so the stream is cut at whichever is found first: at the
+// answer when it is already there (a missing sentinel result is then a deterministic
+// missing-result), else right after the real result (the answer, when it arrives later, is
+// recognised and ignored). A subscription without a real marker (unsatisfiable filter) is only
+// given a short time to answer the synthetic event and is then judged on what it has yielded so
+// far - it owes nothing, ever, so any document it yields is a violation whenever it is seen.
 func (s *sim) waitSentinel(g *gqlSub, sentinel string, lastDoc string) (items []gqlItem, stalled bool) {
 	start := time.Now()
 	var lastStuck map[string]bool
-	var realSeen time.Time
 	nextProbe := 150 * time.Millisecond
 	for {
 		g.mu.Lock()
@@ -1326,16 +1326,15 @@ func (s *sim) waitSentinel(g *gqlSub, sentinel string, lastDoc string) (items []
 				idxReal = i
 			}
 		}
-		if idxReal >= 0 {
-			if realSeen.IsZero() {
-				realSeen = time.Now()
-			} else if time.Since(realSeen) > sentinelGrace {
-				items = append(items, g.items[:idxReal+1]...)
-				g.items = append([]gqlItem{}, g.items[idxReal+1:]...)
-				g.mu.Unlock()
-				s.st.label("gql-synthetic-event-unanswered")
-				return items, false
+		if idxReal >= 0 || (lastDoc == "" && time.Since(start) > noMarkerWait) {
+			items = append(items, g.items[:idxReal+1]...)
+			g.items = append([]gqlItem{}, g.items[idxReal+1:]...)
+			if idxReal < 0 {
+				items = append(items, g.items...)
+				g.items = nil
 			}
+			g.mu.Unlock()
+			return items, false
 		}
 		g.mu.Unlock()
 		select {
